@@ -519,7 +519,9 @@ fn known_class(_name: &str, _bytes: &[u8], _arg: u64, _kind: &str, _msg: &str) -
 /// rough cost of one call in microseconds (measured with ZV_C15_TIMES=1); only steers sampling and load balance
 fn cost_us(name: &str) -> u64 {
     if name.starts_with("ContextualHuffman/decode_x") { 100_000 }
-    else if name == "ContextualHuffmanEncoder::deserialize+decode" { 14_000 }
+    // measured ~5 ms with the hand-made encoders, 14 ms with trained ones; budgeted so that the damaged
+    // hand-made encoders (context map and tree table a few bytes from the start) are all run
+    else if name == "ContextualHuffmanEncoder::deserialize+decode" { 700 }
     else if name == "Compressor/rans/decompress" { 3_000 }
     else if name.starts_with("Compressor/") || name.contains("Mmap") || name.contains("ZReorderMap") || name.contains("ContextualHuffman") || name.contains("fse") { 300 }
     else { 20 }
@@ -634,11 +636,33 @@ pub fn run(args: &Args) {
         let mut per: std::collections::HashMap<usize, usize> = Default::default();
         // a long input costs about ten short ones
         for s in &srcs { if let Some(p) = s.parser() { *per.entry(p).or_insert(0) += s.len() * (if matches!(s, Src::Long { .. }) { 10 } else { 1 }); } }
-        srcs = srcs.into_iter().map(|s| match s.parser() {
+        // within a parser's budget the damaged valid encodings of SHORT seeds (hand-made minimal encodings: every
+        // field is a few bytes from the start) are run in full first; what is left is spread over the rest
+        let wlen = |s: &Src| s.len() * (if matches!(s, Src::Long { .. }) { 10 } else { 1 });
+        let mut full_budget: std::collections::HashMap<usize, usize> = Default::default();
+        let mut order: Vec<usize> = (0..srcs.len()).collect();
+        order.sort_by_key(|&i| wlen(&srcs[i]));
+        let mut keep_full = vec![false; srcs.len()];
+        let cap_of = |p: usize| (4_000_000 / cost_us(ps[p].name)).max(60) as usize * mult;
+        for &i in &order {
+            if let (Some(p), Src::Mut { .. }) = (srcs[i].parser(), &srcs[i]) {
+                if per[&p] <= cap_of(p) { continue; }
+                let used = full_budget.entry(p).or_insert(0);
+                if *used + wlen(&srcs[i]) <= cap_of(p) * 2 / 3 { *used += wlen(&srcs[i]); keep_full[i] = true; }
+            }
+        }
+        srcs = srcs.into_iter().enumerate().map(|(i, s)| match s.parser() {
             Some(p) => {
-                let cap = (4_000_000 / cost_us(ps[p].name)).max(60) as usize * mult;
+                let cap = cap_of(p);
                 let total = per[&p];
-                if total > cap { let stride = (total + cap - 1) / cap; sum.dist_max(&format!("subsampled_stride:{}", ps[p].name), stride as u64); Src::Sub { inner: Box::new(s), stride } } else { s }
+                if total > cap && !keep_full[i] {
+                    let used = full_budget.get(&p).copied().unwrap_or(0);
+                    let rest_cap = cap.saturating_sub(used).max(cap / 3).max(1);
+                    let rest_total = total - used;
+                    let stride = (rest_total + rest_cap - 1) / rest_cap;
+                    sum.dist_max(&format!("subsampled_stride:{}", ps[p].name), stride as u64);
+                    if stride > 1 { Src::Sub { inner: Box::new(s), stride } } else { s }
+                } else { s }
             }
             None => s,
         }).collect();
